@@ -336,7 +336,7 @@ fn c19(p: &Prog, rec: &mut Rec, tier: u8) {
     let l = base_rep.max_len;
     let mut region_effect = 0;
     // --- exploration controls
-    for ctrl in 1..=7u8 {
+    for ctrl in 1..=8u8 {
         if ctrl == 5 && p.threads.len() < 2 {
             continue;
         }
@@ -368,7 +368,7 @@ fn c19(p: &Prog, rec: &mut Rec, tier: u8) {
             rec.v("ctrl_not_subset", "", format!("ctrl {}: results outside the unrestricted set: {:?}", ctrl, extra));
         }
         let must_equal = match ctrl {
-            1 | 6 => true,
+            1 | 6 | 8 => true,
             2 => single_writer_locations(p),
             _ => false,
         };
@@ -385,7 +385,7 @@ fn c19(p: &Prog, rec: &mut Rec, tier: u8) {
                 rec.v("ctrl_lost_outside_region", "", format!("ctrl 7 (region around main's operations after its first one): placements of the region relative to the other threads were not explored, results lost: {:?} ({} iterations, unrestricted {})", lost, r.iters, base.iters));
             }
         }
-        if must_equal && matches!(ctrl, 1 | 6) && r.iters != base.iters {
+        if must_equal && matches!(ctrl, 1 | 6 | 8) && r.iters != base.iters {
             rec.v("ctrl_lost_outside_region", "", format!("ctrl {}: {} iterations instead of {}", ctrl, r.iters, base.iters));
         }
         // fences are not decision points; a region is only expected to show up in the path when it holds a memory access
